@@ -107,6 +107,10 @@ class Model(object):
         self.tables = [{'name': t['name'].upper(), 'columns': t['columns'],
                         'rows': [list(r) for r in t['rows']]} for t in tables]
         self.pairs = [[k, str(v)] for k, v in hdr]
+        # 'wild' pairs: values the format cannot carry verbatim (trailing '# comment',
+        # surrounding blanks, '{{}}').  What they read back as is the value space's
+        # business (C01/C02); here only coherence is required: object == fresh read.
+        self.wild = {}
         self.files = {}
         self.deleted = {}
         self.bound = None
@@ -129,7 +133,7 @@ class Model(object):
         for t in self.tables:
             tabs.append([t['name'], [c['name'] for c in t['columns']],
                          [[cell_key(c, v) for c, v in zip(t['columns'], r)] for r in t['rows']]])
-        return {'pairs': [list(p) for p in self.pairs], 'tables': tabs}
+        return {'pairs': [[k, self.wild.get(k, v)] for k, v in self.pairs], 'tables': tabs}
 
 
 def observe(obj, model):
